@@ -8,6 +8,10 @@
 //!        header loop on the content part's headers), recorded by the generator from the real run:
 //!        the model takes external code as a parameter.
 //!        → `ok file h<file>` | `ok loc` | `err parts0|parts1|sep|json|hdr` | `panic`
+//!   `c17.cmsk h<utf-8>`   `CallMemberStateKey::from_str` → `ok uud|ud|u h<user> h<device>|-` | `err`
+//!   `c17.lang h<utf-8>`   `ElementData::to_matrix` of `<code class=VALUE>` → `ok none|h<language> t|f`
+//!   `c17.tag h<utf-8>`    `TagName::from(s).display_name()` → `ok h<name>`
+//!   `c17.plain h<utf-8>`  `remove_plain_reply_fallback(s)` → `ok h<text>`
 use h_lib::{h_util, Outcome, Req, Rng};
 
 fn hx(b: &[u8]) -> String {
@@ -69,8 +73,79 @@ fn mp_req(boundary: &[u8], body: &[u8], cls: &str) -> Option<Req> {
     Some(Req::new(format!("c17.mp {} {} {j} {e}", hx(boundary), hx(body)), cls))
 }
 
+fn cmsk_real(s: &str) -> Outcome {
+    use std::str::FromStr;
+
+    use ruma_events::call::member::CallMemberStateKey;
+    match CallMemberStateKey::from_str(s) {
+        Err(_) => Outcome::new("err"),
+        Ok(k) => {
+            let u = k.user_id().to_owned();
+            let d = k.device_id().map(|d| d.to_owned());
+            let mut t3 = Vec::new();
+            // which variant it is: equal to the key the constructor builds with / without underscore
+            // (equality compares the variant and the formatted text, which must be the input)
+            let with = CallMemberStateKey::new(u.clone(), d.clone(), true);
+            let without = CallMemberStateKey::new(u.clone(), d.clone(), false);
+            let var = match (&d, k == with, k == without) {
+                (None, _, true) => "u",
+                (Some(_), true, false) => "uud",
+                (Some(_), false, true) => "ud",
+                _ => {
+                    t3.push(format!("parsed key {k:?} equals neither constructor result"));
+                    "?"
+                }
+            };
+            if k.as_ref() != s {
+                t3.push("raw text of the parsed key differs from the input".to_owned());
+            }
+            let dev = d.as_ref().map(|d| hx(d.as_bytes())).unwrap_or_else(|| "-".to_owned());
+            Outcome { imp: format!("ok {var} {} {dev}", hx(u.as_bytes())), t3 }
+        }
+    }
+}
+
+fn lang_real(value: &str) -> Outcome {
+    use ruma_html::{
+        matrix::MatrixElement, Attribute, ElementData, LocalName, Namespace, QualName, StrTendril,
+    };
+    let html = Namespace::from("http://www.w3.org/1999/xhtml");
+    let attr = Attribute {
+        name: QualName::new(None, Namespace::from(""), LocalName::from("class")),
+        value: StrTendril::from(value),
+    };
+    let el = ElementData {
+        name: QualName::new(None, html, LocalName::from("code")),
+        attrs: std::cell::RefCell::new([attr].into_iter().collect()),
+    };
+    let m = el.to_matrix();
+    let MatrixElement::Code(code) = &m.element else { return Outcome::bad() };
+    let lang = match &code.language {
+        Some(l) => hx(l.as_bytes()),
+        None => "none".to_owned(),
+    };
+    Outcome::new(format!("ok {lang} {}", if m.attrs.is_empty() { "f" } else { "t" }))
+}
+
+fn str_op(h: &str, f: impl FnOnce(&str) -> Outcome) -> Outcome {
+    match unh(h).and_then(|b| String::from_utf8(b).ok()) {
+        Some(s) => f(&s),
+        None => Outcome::bad(),
+    }
+}
+
 pub fn run(toks: &[&str]) -> Option<Outcome> {
     match toks {
+        ["c17.cmsk", h] => Some(str_op(h, cmsk_real)),
+        ["c17.lang", h] => Some(str_op(h, lang_real)),
+        ["c17.tag", h] => Some(str_op(h, |s| {
+            let t = ruma_events::tag::TagName::from(s);
+            Outcome::new(format!("ok {}", hx(t.display_name().as_bytes())))
+        })),
+        ["c17.plain", h] => Some(str_op(h, |s| {
+            let r = ruma_events::room::message::sanitize::remove_plain_reply_fallback(s);
+            Outcome::new(format!("ok {}", hx(r.as_bytes())))
+        })),
         ["c17.mp", hb, h, j, e] => {
             if !matches!(*j, "t" | "f") || !matches!(*e, "file" | "loc" | "bad") {
                 return Some(Outcome::bad());
@@ -218,8 +293,109 @@ fn gen_mp(rng: &mut Rng, tier: &str, n: usize, v: &mut Vec<Req>) {
     }
 }
 
+/// Strings built from pieces that matter to one scanner, mutated at character level (always UTF-8).
+fn piece_string(rng: &mut Rng, pieces: &[&str], max: usize) -> String {
+    let mut s = String::new();
+    for _ in 0..rng.below(max + 1) {
+        let p: &&str = rng.pick(pieces);
+        s.push_str(p);
+    }
+    if rng.chance(1, 4) {
+        let mut cs: Vec<char> = s.chars().collect();
+        for _ in 0..1 + rng.below(2) {
+            let n = cs.len();
+            match rng.below(4) {
+                0 if n > 0 => {
+                    cs.remove(rng.below(n));
+                }
+                1 if n > 0 => {
+                    let i = rng.below(n);
+                    cs.insert(i, cs[i]);
+                }
+                2 if n > 1 => {
+                    let i = rng.below(n - 1);
+                    cs.swap(i, i + 1);
+                }
+                _ => cs.insert(rng.below(n + 1), *rng.pick(&['_', ':', '.', ' ', '\n', '>', '<', '-', 'é', '€', '\u{10000}', '\0'])),
+            }
+        }
+        s = cs.into_iter().collect();
+    }
+    s
+}
+
+/// Every string of at most `k` pieces (deterministic part of a stream).
+fn all_piece_strings(pieces: &[&str], k: usize, mut f: impl FnMut(String)) {
+    let mut idx: Vec<usize> = Vec::new();
+    loop {
+        f(idx.iter().map(|i| pieces[*i]).collect());
+        let mut i = 0;
+        loop {
+            if i == idx.len() {
+                idx.push(0);
+                break;
+            }
+            idx[i] += 1;
+            if idx[i] < pieces.len() {
+                break;
+            }
+            idx[i] = 0;
+            i += 1;
+        }
+        if idx.len() > k {
+            break;
+        }
+    }
+}
+
+fn gen_strs(rng: &mut Rng, tier: &str, n: usize, v: &mut Vec<Req>) {
+    let deep = tier == "thorough";
+    let sreq = |op: &str, s: &str, cls: &str| Req::new(format!("c17.{op} {}", hx(s.as_bytes())), cls);
+    // call member state keys
+    const CM_SMALL: &[&str] = &["_", "@", "a", ":", "h", "é", "D"];
+    all_piece_strings(CM_SMALL, if deep { 6 } else { 5 }, |s| v.push(sreq("cmsk", &s, "cmsk.pieces")));
+    const CM: &[&str] = &[
+        "_", "@", "@alice", ":", "example.org", "h", ":8448", "_DEVICE", "DEV_ICE", "[::1]", "1.2.3.4", "é", "€",
+        "\u{10000}", "", "__", ":_", "_:", "@a:h", "@a:h_D", "_@a:h_D", " ", "\0", "A", "#",
+    ];
+    for _ in 0..n {
+        v.push(sreq("cmsk", &piece_string(rng, CM, 6), "cmsk.rand"));
+    }
+    // class attribute values
+    const LANG_SMALL: &[&str] = &["language-", " ", "x", "é", "\t", "language"];
+    all_piece_strings(LANG_SMALL, if deep { 6 } else { 5 }, |s| v.push(sreq("lang", &s, "lang.pieces")));
+    const LANG: &[&str] = &[
+        "language-", "language-rust", "language", "-", " ", "  ", "\t", "\n", "\u{c}", "\r", "\u{a0}", "\u{2003}", "é",
+        "€", "\u{10000}", "x", "hljs", "Language-", "language-é", "xlanguage-y", "language-language-",
+    ];
+    for _ in 0..n {
+        v.push(sreq("lang", &piece_string(rng, LANG, 6), "lang.rand"));
+    }
+    // tag names
+    const TAG_SMALL: &[&str] = &["m", "u", ".", "x", "é", "m.favourite", "m.lowpriority", "m.server_notice"];
+    all_piece_strings(TAG_SMALL, if deep { 5 } else { 4 }, |s| v.push(sreq("tag", &s, "tag.pieces")));
+    const TAG: &[&str] = &[
+        "m.favourite", "m.lowpriority", "m.server_notice", "u.", "u", "m.", ".", "..", "work", "org.example", "é", "€",
+        "\u{10000}", "", " ", "u.é", "m.custom", "a.b.c",
+    ];
+    for _ in 0..n / 2 {
+        v.push(sreq("tag", &piece_string(rng, TAG, 4), "tag.rand"));
+    }
+    // plain-text reply fallbacks
+    const PLAIN_SMALL: &[&str] = &["> ", "<", "* ", "\n", "x", ">", " "];
+    all_piece_strings(PLAIN_SMALL, if deep { 6 } else { 5 }, |s| v.push(sreq("plain", &s, "plain.pieces")));
+    const PLAIN: &[&str] = &[
+        "> <@alice:example.org> ", "> * <@alice:example.org> ", "> ", ">", "> <", "\n", "\n\n", "\r\n", "quoted line",
+        "This is my reply", "é", "€", "\u{10000}", " ", "<", "*", "",
+    ];
+    for _ in 0..n {
+        v.push(sreq("plain", &piece_string(rng, PLAIN, 8), "plain.rand"));
+    }
+}
+
 /// All requests of the modelled scanners. `n` is the size of the random part of the run.
 pub fn gen(rng: &mut Rng, n: usize, tier: &str, v: &mut Vec<Req>) {
     let m = (n / 8).max(200);
     gen_mp(rng, tier, m, v);
+    gen_strs(rng, tier, m, v);
 }
